@@ -27,6 +27,7 @@ Definition self_delimiting (w : list N) : bool :=
   | None => false
   end.
 
-Definition prod_wf (r : report) : bool := wf decmode_all prod_key_table r && self_delimiting (print r).
+(* well-formedness is decided on the specification side only *)
+Definition prod_wf (r : report) : bool := wf decmode_all prod_key_table r.
 
 Definition prod_denote := denote prod_key_table.
